@@ -206,7 +206,7 @@ def ms_script(m, pubs):
     return bytes([80 + m]) + b''.join(vs(p) for p in pubs) + bytes([80 + len(pubs), 0xae])
 
 
-def build_api_tx(rng, network='bitcoin', kinds=None, nin=None, nout=None, max_n=4):
+def build_api_tx(rng, network='bitcoin', kinds=None, nin=None, nout=None, max_n=4, public_only=False):
     from bitcoinlib.transactions import Transaction
     from bitcoinlib.keys import Key
     kinds = kinds or KINDS
@@ -218,7 +218,11 @@ def build_api_tx(rng, network='bitcoin', kinds=None, nin=None, nout=None, max_n=
     ins, meta = [], []
 
     def rk():
-        return Key(rng.randrange(1, 2**rng.choice([8, 200, 255])), network=network)
+        return Key(rng.randrange(2**rng.choice([64, 200, 254]), 2**255), network=network)    # distinct with overwhelming probability
+
+    def pub(k):
+        # the input only knows the public key when public_only is set; private keys are supplied to sign()
+        return Key(k.public_byte, network=network, compressed=k.compressed) if public_only else k
 
     for i in range(nin):
         kind = rng.choice(kinds)
@@ -231,14 +235,14 @@ def build_api_tx(rng, network='bitcoin', kinds=None, nin=None, nout=None, max_n=
             k = rk()
             if kind == 'p2pkh_unc':
                 k = Key(k.secret, compressed=False, network=network)
-            t.add_input(txid, n, keys=[k], script_type='sig_pubkey', sequence=seq, value=val, witness_type='legacy',
+            t.add_input(txid, n, keys=[pub(k)], script_type='sig_pubkey', sequence=seq, value=val, witness_type='legacy',
                         compressed=k.compressed)
             keys = [k]
             sc = b'\x76\xa9\x14' + _h160(k.public_byte) + b'\x88\xac'
             meta.append(dict(kind=kind, wt='legacy', sc=sc, val=val, keys=keys, m=1, spk=sc))
         elif kind == 'p2pk':
             k = rk()
-            t.add_input(txid, n, keys=[k], script_type='signature', sequence=seq, value=val, witness_type='legacy')
+            t.add_input(txid, n, keys=[pub(k)], script_type='signature', sequence=seq, value=val, witness_type='legacy')
             sc = vs(k.public_byte) + b'\xac'
             meta.append(dict(kind=kind, wt='legacy', sc=sc, val=val, keys=[k], m=1, spk=sc))
         elif kind in ('p2sh_ms', 'p2wsh_ms', 'p2sh_p2wsh_ms'):
@@ -247,7 +251,7 @@ def build_api_tx(rng, network='bitcoin', kinds=None, nin=None, nout=None, max_n=
             ks = [rk() for _ in range(nk)]
             st, wt = {'p2sh_ms': ('p2sh_multisig', 'legacy'), 'p2wsh_ms': ('p2sh_multisig', 'segwit'),
                       'p2sh_p2wsh_ms': ('p2sh_p2wsh', 'p2sh-segwit')}[kind]
-            t.add_input(txid, n, keys=ks, script_type=st, sigs_required=m, sequence=seq, value=val, witness_type=wt)
+            t.add_input(txid, n, keys=[pub(x) for x in ks], script_type=st, sigs_required=m, sequence=seq, value=val, witness_type=wt)
             ks_sorted = ks       # Transaction.add_input keeps the given key order (sorting is a wallet-level option)
             rs = ms_script(m, [k.public_byte for k in ks_sorted])
             if kind == 'p2sh_ms':
@@ -259,12 +263,12 @@ def build_api_tx(rng, network='bitcoin', kinds=None, nin=None, nout=None, max_n=
             meta.append(dict(kind=kind, wt='legacy' if kind == 'p2sh_ms' else 'segwit', sc=rs, val=val, keys=ks_sorted, m=m, spk=spk))
         elif kind == 'p2wpkh':
             k = rk()
-            t.add_input(txid, n, keys=[k], script_type='sig_pubkey', sequence=seq, value=val, witness_type='segwit')
+            t.add_input(txid, n, keys=[pub(k)], script_type='sig_pubkey', sequence=seq, value=val, witness_type='segwit')
             sc = b'\x76\xa9\x14' + _h160(k.public_byte) + b'\x88\xac'
             meta.append(dict(kind=kind, wt='segwit', sc=sc, val=val, keys=[k], m=1, spk=b'\x00\x14' + _h160(k.public_byte)))
         elif kind == 'p2sh_p2wpkh':
             k = rk()
-            t.add_input(txid, n, keys=[k], script_type='p2sh_p2wpkh', sequence=seq, value=val, witness_type='p2sh-segwit')
+            t.add_input(txid, n, keys=[pub(k)], script_type='p2sh_p2wpkh', sequence=seq, value=val, witness_type='p2sh-segwit')
             sc = b'\x76\xa9\x14' + _h160(k.public_byte) + b'\x88\xac'
             meta.append(dict(kind=kind, wt='segwit', sc=sc, val=val, keys=[k], m=1,
                              spk=b'\xa9\x14' + _h160(b'\x00\x14' + _h160(k.public_byte)) + b'\x87'))
